@@ -436,7 +436,148 @@ func (c *cluster) tplStaleTimeoutNow(rt *rapid.T) {
 	c.step(vAct{A: "adv", T: 3000})
 }
 
+// tplFigure8: the schedule of Figure 8 of the Raft paper on 5 voters, driven
+// message by message with virtual time standing still. A (leader, term t)
+// replicates X to B only; E is elected in a later term by C and D and appends
+// its own entry at X's index, replicated to nobody; B is elected after that by C
+// and D and brings X onto a majority (A confirms that it holds X, C receives X
+// together with B's no-op, D receives nothing); then E is elected again by D and
+// A. X was never committed, so E may overwrite it: unless B counted replicas of
+// the old-term entry.
+func (c *cluster) tplFigure8(rt *rapid.T) {
+	c.step(vAct{A: "free"})
+	c.step(vAct{A: "adv", T: 1500})
+	A := c.anyLeader()
+	if A == 0 || c.blackbox || len(c.downIDs()) > 0 {
+		return
+	}
+	ra := raftOf(c.up(A))
+	if ra == nil {
+		return
+	}
+	var flr []uint64
+	for _, id := range c.followersOf(A) {
+		if nd, ok := ra.configs.Latest.Nodes[id]; ok && nd.Voter {
+			flr = append(flr, id)
+		}
+	}
+	if len(flr) != 4 || ra.configs.Latest.numVoters() != 5 || !ra.configs.IsCommitted() {
+		return
+	}
+	// roles drawn among the followers
+	perm := rapid.Permutation(flr).Draw(rt, "roles")
+	B, C, D, E := perm[0], perm[1], perm[2], perm[3]
+	c.stats.class("tpl-figure8")
+	bail := func() {
+		c.step(vAct{A: "heal"})
+		c.step(vAct{A: "free"})
+		c.step(vAct{A: "adv", T: 3000})
+	}
+	rf := func(id uint64) *Raft { return raftOf(c.up(id)) }
+	// a node that believes in a live leader refuses its vote (and no time passes
+	// in this template): such voters are killed and restarted, after which they
+	// know no leader (killed, not shut down: nothing here may let time run)
+	bounce := func(ids ...uint64) {
+		for _, id := range ids {
+			c.step(vAct{A: "crash", N: id, B: true})
+			c.step(vAct{A: "restart", N: id})
+		}
+	}
+	// (requests written on connections to previous incarnations are lost: the
+	// next election dials again)
+	campaign := func(cand uint64, minTerm uint64, among []uint64) {
+		for k := 0; k < 4 && rf(cand) != nil && rf(cand).state != Leader && !c.failed(); k++ {
+			c.step(vAct{A: "poke", N: cand, S: "main"})
+			if rf(cand) == nil || rf(cand).term <= minTerm {
+				continue
+			}
+			for i := 0; i < 6 && rf(cand) != nil && rf(cand).state == Candidate && !c.failed(); i++ {
+				c.step(vAct{A: "dlvamong", L: among, K: 1})
+			}
+		}
+	}
+	c.step(vAct{A: "gate"})
+	c.step(vAct{A: "dlvamong", L: []uint64{A, B, C, D, E}, K: 6}) // quiesce
+	x := ra.lastLogIndex + 1
+	c.step(vAct{A: "upd", N: A, K: 1, T: 8})
+	for i := 0; i < 4 && rf(B) != nil && rf(B).lastLogIndex < x && !c.failed(); i++ {
+		c.step(vAct{A: "dlvamong", L: []uint64{A, B}, K: 1})
+	}
+	if c.failed() || rf(B) == nil || rf(B).lastLogIndex != x || ra.commitIndex >= x || ra.state != Leader {
+		bail()
+		return
+	}
+	// (a deposed leader waits, inside the handler that deposed it, for its
+	// replication goroutines; one that sits in a read only leaves at its read
+	// deadline, and time stands still here: A's and later E's connections to
+	// nodes that will not answer are severed beforehand)
+	for _, id := range []uint64{C, D, E} {
+		c.step(vAct{A: "cut", N: A, M: id, B: true})
+	}
+	// E: leader of a later term through C and D
+	bounce(C, D)
+	if rf(C) == nil || rf(D) == nil {
+		bail()
+		return
+	}
+	campaign(E, 0, []uint64{E, C, D})
+	if c.failed() || rf(E) == nil || rf(E).state != Leader || rf(E).lastLogIndex != x || rf(C).lastLogIndex >= x || rf(D).lastLogIndex >= x {
+		bail()
+		return
+	}
+	et := rf(E).term
+	// B: leader after that, again through C and D (who never heard from E as leader)
+	campaign(B, et, []uint64{B, C, D})
+	if c.failed() || rf(B) == nil || rf(B).state != Leader || rf(B).term <= et {
+		bail()
+		return
+	}
+	c.stats.class("tpl-figure8-second-leader")
+	// X and B's no-op reach C; A only confirms that it holds X
+	for i := 0; i < 10 && rf(C) != nil && rf(C).lastLogIndex < x+1 && !c.failed(); i++ {
+		c.step(vAct{A: "dlvamong", L: []uint64{B, C}, K: 1})
+	}
+	c.step(vAct{A: "dlvamong", L: []uint64{B, C}, K: 2})
+	matchOfA := func() uint64 {
+		if l := rf(B); l != nil && l.state == Leader && l.ldr != nil {
+			if rp := l.ldr.repls[A]; rp != nil {
+				return rp.status.matchIndex
+			}
+		}
+		return 0
+	}
+	for i := 0; i < 8 && matchOfA() < x && rf(A) != nil && rf(A).lastLogIndex == x && !c.failed(); i++ {
+		c.step(vAct{A: "dlvamong", L: []uint64{B, A}, K: 1})
+	}
+	if c.failed() || rf(A) == nil || rf(A).lastLogIndex != x || matchOfA() != x || rf(B).state != Leader || rf(D).lastLogIndex >= x {
+		bail()
+		return
+	}
+	c.stats.class("tpl-figure8-majority-holds-old-entry")
+	// E loses contact with everybody and gives up leadership, keeping its entry
+	for _, id := range []uint64{B, C, D} {
+		c.step(vAct{A: "cut", N: E, M: id, B: true})
+	}
+	// A forgets its leader
+	bounce(A)
+	if c.failed() || rf(E) == nil || rf(A) == nil || rf(E).state == Leader || rf(E).lastLogIndex != x || rf(E).lastLogTerm != et || rf(A).lastLogIndex != x {
+		bail()
+		return
+	}
+	c.step(vAct{A: "uncut", N: E, M: D})
+	c.step(vAct{A: "uncut", N: E, M: A})
+	campaign(E, rf(B).term, []uint64{E, D, A})
+	if !c.failed() && rf(E) != nil && rf(E).state == Leader {
+		c.stats.class("tpl-figure8-complete")
+		for i := 0; i < 6 && !c.failed(); i++ {
+			c.step(vAct{A: "dlvamong", L: []uint64{E, D, A}, K: 1})
+		}
+	}
+	bail()
+}
+
 var templates = map[string]func(c *cluster, rt *rapid.T){
+	"figure8":         (*cluster).tplFigure8,
 	"staletimeoutnow": (*cluster).tplStaleTimeoutNow,
 	"divergesnap":  (*cluster).tplDivergeSnap,
 	"lagsnap":      (*cluster).tplLagSnap,
